@@ -55,6 +55,14 @@ impl DB {
                 );
             }
         }
+        let seek_compaction = {
+            let version = current.read();
+            let metadata = version.element.get_seek_compaction_metadata();
+            metadata
+                .file_to_compact
+                .as_ref()
+                .map(|file| (file.file_number(), metadata.level_of_file_to_compact))
+        };
         drop(current);
         let (versions, version_refcounts) = guard.version_set.verif_versions();
         let mut tables_in_use: Vec<u64> = guard.tables_in_use.iter().copied().collect();
@@ -82,6 +90,7 @@ impl DB {
             manual_compaction_pending: guard.maybe_manual_compaction.is_some(),
             needs_compaction: guard.version_set.needs_compaction(),
             shutting_down: self.is_shutting_down.load(Ordering::Acquire),
+            seek_compaction,
         }
     }
 
